@@ -6,7 +6,8 @@ have = {f['id'] for f in d['findings']}
 for fn in sorted(glob.glob('/verif/fixes/*_findings.json')):
     if sys.argv[1:] and not any(a in fn for a in sys.argv[1:]):
         continue
-    for f in json.load(open(fn))['findings']:
+    j = json.load(open(fn)); items = j['findings'] if isinstance(j, dict) else j
+    for f in items:
         if f['id'] not in have:
             d['findings'].append(f); have.add(f['id']); print('added', f['id'])
 json.dump(d, open(p, 'w'), indent=1)
